@@ -205,6 +205,8 @@ func (x *Exec) callStatic(st *State, fn *ssa.Function, args []Value, binds []Val
 		}
 		x.noteOnce("call to %s not inlined (recursive group or depth): frame from static effects, result unconstrained", key)
 		pre0 := st.clone()
+		x.recvInvAt(st, pre0, fn, args, binds, pos, true)
+		x.checkParamContracts(st, fn, fc, args, pos)
 		x.havocCall(st, fn, args, binds)
 		results := x.havocResults(fn.Signature, fn.Name())
 		for i, r := range results {
@@ -214,6 +216,7 @@ func (x *Exec) callStatic(st *State, fn *ssa.Function, args []Value, binds []Val
 				}
 			}
 		}
+		x.recvInvAt(st, pre0, fn, args, binds, pos, false)
 		x.assumeCommonPost(st, pre0, fn, args, binds, results)
 		x.recordEvent(st, eventNameOfFunc(fn), args, results)
 		k(st, results)
@@ -490,6 +493,29 @@ func (x *Exec) applyContract(st *State, fn *ssa.Function, fc *FuncContract, args
 	k(st, results)
 }
 
+// recvInvAt: the receiver invariants of a callee that is not inlined are owed before the call
+// (check=true) and may be relied on afterwards (check=false).
+func (x *Exec) recvInvAt(st, pre *State, fn *ssa.Function, args, binds []Value, pos token.Pos, check bool) {
+	invs, invRecv := x.w.recvInvFor(fn)
+	if len(invs) == 0 || x.pureMode {
+		return
+	}
+	key := funcKey(fn)
+	env := x.specEnvForCall(st, pre, fn, args, binds)
+	for _, c := range invs {
+		env.vars[c.Param] = env.vars[invRecv]
+		g, err := env.evalBool(c.Expr)
+		if err != nil {
+			x.contractError(c, err)
+			continue
+		}
+		if check {
+			x.oblige(st, "requires", key+":receiver-invariant:"+c.Label+"@"+x.srcAt(pos), c.Props, g, pos)
+		}
+		st.assume(g)
+	}
+}
+
 // assumeCommonPost assumes the type-wide postconditions of a callee (proved when the callee is checked).
 func (x *Exec) assumeCommonPost(st, pre *State, fn *ssa.Function, args, binds []Value, results []Value) {
 	cs := x.w.commonPostFor(fn)
@@ -527,6 +553,29 @@ func (x *Exec) callParamFunc(st *State, pf *ParamFuncV, args []Value, pos token.
 	// a function value received as parameter may touch anything reachable from the
 	// caller's pointers (it is typically a bound method of the same receiver)
 	root := st.frames[0]
+	if pf.fc != nil {
+		// what the function value may rely on about its arguments is owed here
+		env := x.newSpecEnv(st, pre, root.fn)
+		env.bindRootParams(root)
+		for i := 0; i < pf.sig.Params().Len() && i < len(args); i++ {
+			env.vars["arg"+fmt.Sprint(i)] = args[i]
+			if n := pf.sig.Params().At(i).Name(); n != "" {
+				env.vars["param_"+n] = args[i]
+			}
+		}
+		for _, c := range pf.fc.Params[pf.name] {
+			if c.Kind != "requires" {
+				continue
+			}
+			g, err := env.evalBool(c.Expr)
+			if err != nil {
+				x.contractError(c, err)
+				continue
+			}
+			x.oblige(st, "requires", "param-"+pf.name+":"+c.Label+"@"+x.srcAt(pos), c.Props, g, pos)
+			st.assume(g)
+		}
+	}
 	var rargs []Value
 	for _, p := range root.fn.Params {
 		rargs = append(rargs, root.env[p])
@@ -575,6 +624,16 @@ func (x *Exec) callParamFunc(st *State, pf *ParamFuncV, args []Value, pos token.
 		env.bindRootParams(root)
 		if g, err := env.evalBool(c.Expr); err == nil {
 			st.assume(g)
+		}
+	}
+	if invs, recv := x.w.recvInvFor(root.fn); len(invs) > 0 {
+		env := x.newSpecEnv(st, pre, root.fn)
+		env.bindRootParams(root)
+		for _, c := range invs {
+			env.vars[c.Param] = env.vars[recv]
+			if g, err := env.evalBool(c.Expr); err == nil {
+				st.assume(g)
+			}
 		}
 	}
 	x.recordEvent(st, pf.name, args, results)
@@ -904,7 +963,9 @@ func (x *Exec) doLookup(st *State, in *ssa.Lookup) {
 	h := x.heap(st, cs)
 	c := Select(h, ref, cs)
 	has := And(Neq(ref, IntT(0)), Select(Sel(cs+"_has", c), key, "Bool"))
-	val := Ite(has, Select(Sel(cs+"_val", c), key, vs), x.w.zero(m.Elem()))
+	raw := Select(Sel(cs+"_val", c), key, vs)
+	x.assumeWellFormed(st, raw, m.Elem())
+	val := Ite(has, raw, x.w.zero(m.Elem()))
 	if in.CommaOk {
 		fr.env[in] = &TupleV{vals: []Value{val, has}}
 	} else {
@@ -1008,8 +1069,37 @@ func (x *Exec) logAppendOnly(st *State, old, nw *EvKind) {
 // `param` contract must itself guarantee that contract.  For a named function or
 // bound method the obligation is "its ensures clauses imply the param clause",
 // checked on fresh symbolic results.
+// checkTypeInvs: by-value arguments of an annotated struct type must satisfy the type's invariant
+// at a call that is not inlined (the callee assumes it).
+func (x *Exec) checkTypeInvs(st *State, callee *ssa.Function, args []Value, pos token.Pos) {
+	if fc := x.w.contracts[funcKey(callee)]; fc != nil && fc.Flags["notypeinv"] {
+		return
+	}
+	for i := range callee.Params {
+		if i >= len(args) {
+			break
+		}
+		for _, c := range x.w.paramInvsFor(callee, i) {
+			env := x.newSpecEnv(st, st, callee)
+			env.vars[c.Param] = args[i]
+			g, err := env.evalBool(c.Expr)
+			if err != nil {
+				x.contractError(c, err)
+				continue
+			}
+			x.oblige(st, "requires", funcKey(callee)+":type-invariant:"+c.Label+"@"+x.srcAt(pos), c.Props, g, pos)
+			st.assume(g)
+		}
+	}
+}
+
 func (x *Exec) checkParamContracts(st *State, callee *ssa.Function, fc *FuncContract, args []Value, pos token.Pos) {
+	x.checkTypeInvs(st, callee, args, pos)
 	common := x.w.commonPostFor(callee)
+	if invs, _ := x.w.recvInvFor(callee); len(invs) > 0 {
+		// a function value handed to a method must also keep the receiver invariants
+		common = append(append([]*Clause{}, common...), invs...)
+	}
 	if (fc == nil || len(fc.Params) == 0) && len(common) == 0 {
 		return
 	}
@@ -1025,7 +1115,7 @@ func (x *Exec) checkParamContracts(st *State, callee *ssa.Function, fc *FuncCont
 			continue
 		}
 		if cv, ok := args[i].(*ClosureV); ok && x.w.unwrapBound(cv.fn).Parent() != nil {
-			x.checkClosureAgainst(st, callee, p.Name(), cv, clauses, common, pos)
+			x.checkClosureAgainst(st, callee, p.Name(), cv, clauses, common, args, pos)
 			continue
 		}
 		cv, ok := args[i].(*ClosureV)
@@ -1129,7 +1219,7 @@ func (w *World) unwrapBound(fn *ssa.Function) *ssa.Function {
 // checkClosureAgainst: an anonymous function passed for a contracted parameter is executed
 // symbolically on arbitrary arguments (it shares the captured variables of the current state) and
 // must satisfy the param clauses and the type-wide postconditions at each of its returns.
-func (x *Exec) checkClosureAgainst(st *State, callee *ssa.Function, pname string, cv *ClosureV, clauses, common []*Clause, pos token.Pos) {
+func (x *Exec) checkClosureAgainst(st *State, callee *ssa.Function, pname string, cv *ClosureV, clauses, common []*Clause, actual []Value, pos token.Pos) {
 	if len(st.frames) >= maxInlineDepth {
 		return
 	}
@@ -1146,6 +1236,29 @@ func (x *Exec) checkClosureAgainst(st *State, callee *ssa.Function, pname string
 		cargs = append(cargs, v)
 	}
 	root := st.frames[0]
+	// the callee promises these about the arguments it calls the function value with
+	{
+		renv := x.newSpecEnv(scratch, scratch, callee)
+		for i, p := range callee.Params {
+			if i < len(actual) {
+				renv.vars[p.Name()] = actual[i]
+			}
+		}
+		for i, p := range cv.fn.Params {
+			renv.vars["arg"+fmt.Sprint(i)] = cargs[i]
+			renv.vars["param_"+p.Name()] = cargs[i]
+		}
+		for _, c := range clauses {
+			if c.Kind != "requires" {
+				continue
+			}
+			if g, err := renv.evalBool(c.Expr); err == nil {
+				scratch.assume(g)
+			} else {
+				x.contractError(c, err)
+			}
+		}
+	}
 	x.runFunc(scratch, cv.fn, cargs, cv.binds, func(s2 *State, res []Value) {
 		env := x.newSpecEnv(s2, entry, root.fn)
 		env.bindRootParams(s2.frames[0])
@@ -1170,6 +1283,12 @@ func (x *Exec) checkClosureAgainst(st *State, callee *ssa.Function, pname string
 			x.oblige(s2, "requires", funcKey(callee)+":param-"+pname+":"+c.Label+"@"+x.srcAt(pos), c.Props, g, pos)
 		}
 		for _, c := range common {
+			if c.Kind == "recvinv" {
+				if len(root.fn.Params) == 0 {
+					continue
+				}
+				env.vars[c.Param] = env.vars[root.fn.Params[0].Name()]
+			}
 			g, err := env.evalBool(c.Expr)
 			if err != nil {
 				continue
@@ -1177,4 +1296,28 @@ func (x *Exec) checkClosureAgainst(st *State, callee *ssa.Function, pname string
 			x.oblige(s2, "requires", funcKey(callee)+":param-"+pname+":common:"+c.Label+"@"+x.srcAt(pos), c.Props, g, pos)
 		}
 	})
+}
+
+// assumeWellFormed: a value read out of a map heap satisfies the representation facts of its Go
+// type (slice lengths are not negative, ...): every value ever stored did. Only for closed terms.
+func (x *Exec) assumeWellFormed(st *State, val *Term, t types.Type) {
+	if st == nil || val == nil {
+		return
+	}
+	fv := map[string]string{}
+	collectVars(val, fv)
+	for v := range fv {
+		if i := strings.LastIndex(v, "!"); i >= 0 && i+1 < len(v) {
+			switch v[i+1] {
+			case 'b', 'q', 'p', 'c', 's':
+				return
+			}
+		}
+	}
+	for _, f := range x.typeFacts(val, t, 0) {
+		if f.Kind == KQuant {
+			continue
+		}
+		st.assume(f)
+	}
 }
